@@ -311,6 +311,70 @@ def system_family(ctx):
         "scribble steps, and every live buffer and variable is re-read after every call"])
 
 
+TARGETS_RE = re.compile(r'^<<"TARGETS", (".*")>>$')
+
+
+def plan_C04(ctx):
+    ctx.build()
+    maxlen = 3 if ctx.quick else 4
+    cfg = "CONSTANTS\n  Env <- MCEnv\n  MaxLen = %d\n  Emit = TRUE\nSPECIFICATION Spec\nINVARIANTS WalkProgress DecodeTotal SkipBounded EmitCase\nCHECK_DEADLOCK FALSE\n" % maxlen
+    out, st = vlib.tlc(ctx.work, "MCHostile", cfg, workers=vlib.NCPU, timeout=2400, heap="8g")
+    if "is violated" in out or "Error:" in out or st["rc"] != 0:
+        raise Broken("design check MCHostile failed:\n" + "\n".join(l[:300] for l in out.splitlines() if "CASE" not in l)[-3000:])
+    ctx.add_mc(st)
+    strings, targets = [], None
+    for line in out.splitlines():
+        m = fam_codec.CASE_RE.match(line)
+        if m:
+            strings.append(json.loads(json.loads(m.group(1)))["input"])
+        m = TARGETS_RE.match(line)
+        if m:
+            targets = json.loads(json.loads(m.group(1)))
+    if not targets or not strings:
+        raise Broken("MCHostile emitted no targets / strings")
+    # thorough: expand the last two positions over the same alphabet (plain enumeration) for the length-4 prefixes
+    alphabet = [0, 1, 2, 8, 10, 11, 13, 18, 19, 127, 128, 255]
+    if not ctx.quick:
+        ext = [s + [a] for s in strings if len(s) == 4 for a in alphabet]
+        strings += ext
+    cases = []
+    for t in targets:
+        rec = t["T"].get("k") == "ref"
+        for s in strings:
+            for via in (("unmarshal",) if rec else ("unmarshal", "descriptor")):
+                cases.append({"ev": "hostile", "T": t["T"], "cfg": fam_codec.CFGS[t["cfg"]], "input": s, "via": via})
+    log("design check MCHostile: %d states; %d strings x %d targets -> %d cases" % (st["distinct"], len(strings), len(targets), len(cases)))
+    p1 = os.path.join(ctx.work, "mc_cases.ndjson")
+    fam_codec.write_cases(cases, p1, 0)
+    n = 40000 if ctx.quick else 1500000
+    p2 = fam_codec.gen_random(ctx.pvh, ctx.work, n, ctx.seed, cfg="mix", kind="hostile", idbase=100000000, tag="mut")
+    ctx.case_files = [p1, p2]
+    traces = [run_hostile(ctx, p1, "mc"), run_hostile(ctx, p2, "mut")]
+    trace = os.path.join(ctx.work, "all_trace.ndjson")
+    with open(trace, "w") as f:
+        for t in traces:
+            f.write(open(t).read())
+    ctx.run_kw = dict(mem=4096)
+    verdicts, jst = vlib.judge(ctx.work, "TraceHostile", trace, ctx.env, ctx.open, tag="main")
+    rule = ("S->C: every byte string up to length %d over {00 01 02 08 0a 0b 0d 12 13 7f 80 ff}%s x %d target types (one per codec, both slice forms, maps with "
+            "scalar / struct keys, time in both modes, null types, JSON-any, proto forms, a recursive type) x {Unmarshal, Descriptor.Read}; C->S: %d byte-wise "
+            "mutations (truncation, byte replacement, huge / overflowing varints spliced in, deletions) of valid encodings of random types. Workers run under "
+            "ulimit -v 4 GiB with a 10 s budget per case. non-trivial = non-empty input" % (maxlen, "" if ctx.quick else " (+ length 5 by expansion)", len(targets), n))
+    return finish(ctx, "TraceHostile", verdicts, [trace], jst, rule, [
+        "the verdict is an observation of the real decoder on model-generated inputs: returned / error / panic / fatal fault / timeout and TotalAlloc delta; "
+        "a read outside the input through unsafe that neither faults nor changes the outcome is invisible",
+        "allocation bound: 1 MiB + 4 KiB per input byte, measured process-wide in a worker that runs one case at a time"])
+
+
+def run_hostile(ctx, cases, tag):
+    out = os.path.join(ctx.work, tag + "_trace.ndjson")
+    vlib.run([ctx.pvh, "run", "-in", cases, "-out", out, "-budget", "10s", "-memMB", "4096"], timeout=7200)
+    for line in open(out):
+        if '"kind":"harness-error"' in line:
+            raise Broken("the harness could not build a case: " + line[:600])
+    return out
+
+
 def plan_C06(ctx):
     return system_family(ctx)
 
@@ -360,8 +424,9 @@ def plan_C12(ctx):
     return codec_family(ctx, 6000, 200000, mc_cfgs_quick=("both", "pa"), rnd_cfg="mix")
 
 
-PLANS = {"C06": plan_C06, "C11": plan_C11, "C03": plan_C03, "C10": plan_C10, "C18": plan_C18, "C12": plan_C12, "C01": plan_C01, "C02": plan_C02, "C05": plan_C05, "C09": plan_C09, "C14": plan_C14}
+PLANS = {"C04": plan_C04, "C06": plan_C06, "C11": plan_C11, "C03": plan_C03, "C10": plan_C10, "C18": plan_C18, "C12": plan_C12, "C01": plan_C01, "C02": plan_C02, "C05": plan_C05, "C09": plan_C09, "C14": plan_C14}
 MODULES = {k: "TraceCodec" for k in PLANS}
 MODULES["C18"] = "TracePrim"
 MODULES["C03"] = MODULES["C10"] = "TraceDecode"
 MODULES["C06"] = MODULES["C11"] = "TraceSystem"
+MODULES["C04"] = "TraceHostile"
